@@ -93,6 +93,8 @@ func candidates(prim string, loc string) []WireVal {
 		if loc != "path" {
 			out = append(out, mk("", "empty"))
 		}
+		// a literal percent sign followed by two hex digits: decoding the wire form twice turns it into "SAVEA"
+		out = append(out, mk("SAVE%41", "percent-hex"))
 		if loc != "header" {
 			// leading/trailing blanks belong to the value (header values lose optional whitespace on the wire)
 			out = append(out, mk("  pad ded ", "padded"))
@@ -189,6 +191,9 @@ func parseValidate(v string) (c constraint, known bool) {
 			c.omitempty = true
 		case "sim_probe":
 			// the simulator's own custom validator: always true, only a yield point
+		case "enum_1_enum", "enum_2_enum", "enum_3_enum", "enum_4_enum", "enum_5_enum", "enum_6_enum", "enum_7_enum", "enum_8_enum", "enum_9_enum":
+			// the validator gleece generates per enum (generateEnumValidator): true for every declared member,
+			// and enum-typed parameters and fields only ever carry members when they are judged
 		case "min", "gte":
 			f, err := strconv.ParseFloat(arg, 64)
 			if err != nil {
